@@ -158,6 +158,11 @@ class EquationSolver(object):
             if len(val) < self.Parser.MaxTime + 1:
                 raise ValueError('Exogenous variable list too short: ' + var)
             variables[var] = val[0:self.Parser.MaxTime + 1]
+            # Every period of an exogenous path within the horizon is part of the results: a value that is not a finite
+            # number (a literal that overflows) is refused here, like a non-finite value computed in a period.
+            for exo_val in variables[var][1:]:
+                if isinstance(exo_val, float) and (exo_val != exo_val or abs(exo_val) == float('inf')):
+                    raise ValueError('Non-finite value in exogenous variable ' + var)
             time_zero_constants[var] = val[0]
         # Third pass: clean up constant endogenous
         changes_made = True
